@@ -252,6 +252,47 @@ Theorem C19_evm_skip_failed_lookup_refuted :
 Proof. exact skip_evm_exec_refuted. Qed.
 Print Assumptions C19_evm_skip_failed_lookup_refuted.
 
+(* Retry paths (EVM RetryV1EventHandler, Substrate RetryEventHandler): the group sent for destination d is
+   the not yet executed deposits for d of the first retry event of the range, then those of the second, ...:
+   chain (log) order of the events and, inside an event, of its deposits - no trace of a map's iteration
+   order (for any message type, destination function and liveness test) ... *)
+Theorem C19_retry_grouping_event_order : forall (M : Type) (dest : M -> N) (live : M -> bool) d (evs : list (list M)),
+  lookup d (group dest (filter live (List.concat evs))) =
+  List.concat (map (fun ev => for_dest dest d (filter live ev)) evs).
+Proof. exact (@retry_grouping_event_order). Qed.
+Print Assumptions C19_retry_grouping_event_order.
+
+(* ... so every group the model of the retry handlers sends is named retry-<source>-<destination>-<start>-<end>
+   and holds exactly those deposits in that order. *)
+Theorem C19_retry_model_group : forall src s e evs id d ns,
+  In (id, d, ns) (retry_model src s e evs) ->
+  id = retry_message_id src (Z.of_N d) s e /\
+  ns = map rd_nonce (List.concat (map (fun ev => for_dest rd_dest d (filter rd_live ev)) evs)).
+Proof. exact retry_model_in. Qed.
+Print Assumptions C19_retry_model_group.
+
+(* The judge of the repeated runs of a handler on one range (Go randomises map iteration) accepts only
+   observations in which any two repetitions sent the same groups - same deposits, same order, same ids -
+   and accepts a function of the chain data repeated any number of times. *)
+Theorem C19_reps_judge_sound : forall runs r1 r2, reps_ok runs = true -> In r1 runs -> In r2 runs -> r1 = r2.
+Proof. exact reps_ok_sound. Qed.
+Print Assumptions C19_reps_judge_sound.
+
+Theorem C19_reps_judge_accepts_model : forall m n, reps_ok (repeat m n) = true.
+Proof. exact reps_ok_model. Qed.
+Print Assumptions C19_reps_judge_accepts_model.
+
+(* The judge of the concurrent cases (one long-lived handler object serving the listener's scan and retries
+   of other blocks at the same time): under every observed schedule every call sent what it sent when the
+   calls were made one after the other; a function of the chain data passes for any number of schedules. *)
+Theorem C19_conc_judge_sound : forall seq runs, conc_ok seq runs = true -> forall r, In r runs -> r = seq.
+Proof. exact conc_ok_sound. Qed.
+Print Assumptions C19_conc_judge_sound.
+
+Theorem C19_conc_judge_accepts_model : forall m n, conc_ok m (repeat m n) = true.
+Proof. exact conc_ok_model. Qed.
+Print Assumptions C19_conc_judge_accepts_model.
+
 (* the boolean cell test used by the judge is the statement of C19_ranges_are_cells *)
 Theorem C19_is_cell_spec : forall i s e, is_cell i s e = true <-> (s mod i = 0 /\ e = s + i - 1).
 Proof. exact is_cell_spec. Qed.
@@ -300,11 +341,22 @@ Example C19_nonvacuous :
      [([1%N; 3%N], ["1-2-10-14-0"%string]); ([4%N], ["1-2-10-14-1"%string])] /\
    evm_exec "1-2-10-14" 250 100 (mark d [false; true]) = [] /\
    faulty_ok sess1_eqb (evm_exec "1-2-10-14" 250 100 (mark d [])) [[]; [([4%N], ["1-2-10-14-1"%string])]] = true /\
-   faulty_ok sess1_eqb (evm_exec "1-2-10-14" 250 100 (mark d [])) [[([3%N; 4%N], ["1-2-10-14-1"%string])]] = false).
+   faulty_ok sess1_eqb (evm_exec "1-2-10-14" 250 100 (mark d [])) [[([3%N; 4%N], ["1-2-10-14-1"%string])]] = false) /\
+  (* two retried transactions in the range [100, 104]: deposits 7 (to 2) and 8 (to 3), then 5 (to 2, already
+     executed) and 6 (to 2): destination 2 gets 7 then 6; the other order in one repetition is rejected *)
+  retry_model 1 100 104 [[(2%N, 7%N, false); (3%N, 8%N, false)]; [(2%N, 5%N, true); (2%N, 6%N, false)]] =
+    [("retry-1-2-100-104"%string, 2%N, [7%N; 6%N]); ("retry-1-3-100-104"%string, 3%N, [8%N])] /\
+  reps_ok [[("retry-1-2-100-104"%string, 2%N, [7%N; 6%N])]; [("retry-1-2-100-104"%string, 2%N, [7%N; 6%N])]] = true /\
+  reps_ok [[("retry-1-2-100-104"%string, 2%N, [7%N; 6%N])]; [("retry-1-2-100-104"%string, 2%N, [6%N; 7%N])]] = false /\
+  conc_ok [[("1-2-840000"%string, 2%N, [1%N; 2%N])]] [[[("1-2-840000"%string, 2%N, [1%N; 2%N])]]] = true /\
+  (* a nonce derived from an interleaved hasher (unknown: 0), or a dropped deposit *)
+  conc_ok [[("1-2-840000"%string, 2%N, [1%N; 2%N])]] [[[("1-2-840000"%string, 2%N, [1%N; 0%N])]]] = false /\
+  conc_ok [[("1-2-840000"%string, 2%N, [1%N; 2%N])]] [[[("1-2-840000"%string, 2%N, [1%N])]]] = false.
 Proof.
   cbv zeta. split; [reflexivity|]. split; [right; reflexivity|]. split; [right; reflexivity|].
   split; [vm_compute; auto 20|]. split; [vm_compute; auto 20|].
   repeat (split; [vm_compute; reflexivity|]).
+  split; [|vm_compute; repeat split].
   split; [|vm_compute; repeat split].
   cbn. repeat constructor; cbn; intuition discriminate.
 Qed.
